@@ -17,7 +17,9 @@ META = dict(
             'include lists of 0-2 ROADM names, LOOSE/STRICT, plus unknown names and transceiver names',
             'shortest = minimal fibre length up to 1 m (non-fibre hops carry a 0.01 m weight in the implementation)',
             'H11b: triangle and ring4 through add_missing_elements_in_network, one link up to 500 km (split into 1-6 spans), the others < 140 km',
-            'H11c: pairs of requests of one disjunction group on triangle / ring4+chord / mesh4, each with its own include option'],
+            'H11c: pairs of requests of one disjunction group on triangle / ring4+chord / mesh4, each with its own include option',
+            'H11b (in-line amplifier): triangle with one link given as two fibres (< 140 km each); H11d: ring5+chord, include lists of 3 ROADMs '
+            'in all 6 orders, STRICT or LOOSE (time-boxed, not exhaustive in the quick tier)'],
     assumptions=['floats as reals', 'ties between equally long (partial) routes are excluded: fibre lengths in generic position '
                  '(the property does not rule on ties)'],
     stubs=[],
